@@ -388,7 +388,8 @@ zif_open(const char *file)
 		return NULL;
 	} else if (fstat(fd, &st) < 0) {
 		goto cout;
-	} else if (st.st_size <= 20) {
+	} else if (st.st_size < (off_t)sizeof(struct zih_s)) {
+		/* not even a header */
 		goto cout;
 	}
 
@@ -420,6 +421,11 @@ zif_open(const char *file)
 		hds += RDU32(hdr + offsetof(struct zih_s, tzh_ttisstdcnt));
 		hds += RDU32(hdr + offsetof(struct zih_s, tzh_ttisgmtcnt));
 
+		if (UNLIKELY((size_t)(hds - hdr) >
+			     (size_t)st.st_size - sizeof(struct zih_s))) {
+			/* the counts promise more than the file holds */
+			goto unmp;
+		}
 		if (UNLIKELY(memcmp(hds, TZ_MAGIC, 4U))) {
 			goto unmp;
 		}
@@ -431,6 +437,18 @@ zif_open(const char *file)
 		break;
 	default:
 		goto unmp;
+	}
+	/* check that the transitions, their types and the type details
+	 * all lie within the file, and that there is a type to refer to */
+	with (size_t trz = hdr[offsetof(struct zih_s, tzh_version)] ? 8U : 4U) {
+		size_t avail = (size_t)st.st_size -
+			(size_t)(hdr - map) - sizeof(struct zih_s);
+
+		if (UNLIKELY(tmp.nty == 0U ||
+			     tmp.ntr > avail / (trz + 1U) ||
+			     tmp.nty > (avail - tmp.ntr * (trz + 1U)) / 6U)) {
+			goto unmp;
+		}
 	}
 	/* alloc space, don't read leaps just transitions and types */
 	res = malloc(sizeof(*res) +
@@ -480,6 +498,13 @@ zif_open(const char *file)
 	/* clean up */
 	munmap(map, st.st_size);
 	close(fd);
+	/* transitions must not refer to types that aren't there */
+	for (size_t i = 0U; i < res->ntr; i++) {
+		if (UNLIKELY(res->tys[i] >= res->nty)) {
+			free(res);
+			return NULL;
+		}
+	}
 	/* compactify, we disallow transitions to the same type */
 	real_ntr += res->ntr > 0U;
 	for (size_t i = 1U; i < res->ntr; i++) {
